@@ -163,6 +163,17 @@ fn prefixes_of(inputs: &[IdpfInput], level: usize, extra: &mut Sm, max: usize) -
     set.iter().map(|b| IdpfInput::from_bools(b)).collect()
 }
 
+/// Builds an admissible aggregation parameter (non-empty, sorted, distinct, equal-length prefixes of at most `bits` bits);
+/// a refusal or panic is recorded as data: the trace spec accepts no refused admissible parameter.
+fn mk_ap(ps: Vec<IdpfInput>, out: &mut Vec<Value>) -> Option<Poplar1AggregationParam> {
+    let (n, plen) = (ps.len(), ps.first().map(|p| p.len()).unwrap_or(0));
+    match guarded(|| Poplar1AggregationParam::try_from_prefixes(ps)) {
+        Ok(Ok(ap)) => Some(ap),
+        Ok(Err(e)) => { out.push(json!({"ev":"aggparam","ok":false,"n":n,"plen":plen,"err":e.to_string()})); None }
+        Err(p) => { out.push(json!({"ev":"panic","where":"try_from_prefixes","msg":p})); None }
+    }
+}
+
 fn aggregate_level(v: &V, bits: usize, ctx: &[u8], key: &[u8; 32], reports: &[Report], ap: &Poplar1AggregationParam, out: &mut Vec<Value>) -> Option<Vec<u64>> {
     let mut per_agg: Vec<Vec<Poplar1FieldVec>> = vec![Vec::new(), Vec::new()];
     let mut n = 0;
@@ -207,7 +218,7 @@ pub fn record(args: &[String]) {
                     let mut hitters: Vec<Vec<bool>> = Vec::new();
                     for level in 0..bits {
                         cands.sort();
-                        let ap = Poplar1AggregationParam::try_from_prefixes(cands.iter().map(|c| IdpfInput::from_bools(c)).collect()).unwrap();
+                        let Some(ap) = mk_ap(cands.iter().map(|c| IdpfInput::from_bools(c)).collect(), &mut out) else { break };
                         let Some(counts) = aggregate_level(&v, bits, &ctx, &key, &reports, &ap, &mut out) else { break };
                         let keep: Vec<Vec<bool>> = cands.iter().zip(counts.iter()).filter(|(_, c)| **c >= threshold).map(|(p, _)| p.clone()).collect();
                         if level == bits - 1 { hitters = keep; break; }
@@ -220,7 +231,7 @@ pub fn record(args: &[String]) {
                     let mut level = rng.below(bits as u64) as usize;
                     loop {
                         let ps = prefixes_of(&inputs, level, &mut rng, 6);
-                        let ap = Poplar1AggregationParam::try_from_prefixes(ps).unwrap();
+                        let Some(ap) = mk_ap(ps, &mut out) else { break };
                         aggregate_level(&v, bits, &ctx, &key, &reports, &ap, &mut out);
                         level += 1 + rng.below(3) as usize;
                         if level >= bits { break; }
@@ -233,7 +244,7 @@ pub fn record(args: &[String]) {
             let sizes: Vec<(usize, Vec<usize>)> = if thorough {
                 vec![(64, vec![0, 31, 62, 63]), (300, vec![0, 150, 298, 299]), (21850, vec![21845, 21846, 21848, 21849]), (65536, vec![0, 32768, 65534, 65535])]
             } else {
-                vec![(64, vec![0, 62, 63]), (300, vec![150, 299]), (21850, vec![21845, 21846, 21849])]
+                vec![(64, vec![0, 62, 63]), (300, vec![150, 299]), (21850, vec![21845, 21846, 21849]), (65536, vec![65534, 65535])]
             };
             for (bits, levels) in sizes {
                 let v: V = Poplar1::new(bits);
@@ -250,7 +261,7 @@ pub fn record(args: &[String]) {
                 }
                 for level in levels {
                     let ps = prefixes_of(&inputs, level, &mut rng, 3);
-                    let ap = Poplar1AggregationParam::try_from_prefixes(ps).unwrap();
+                    let Some(ap) = mk_ap(ps, &mut out) else { continue };
                     let before = out.len();
                     aggregate_level(&v, bits, &ctx, &key, &reports, &ap, &mut out);
                     if bits > 1000 {
@@ -293,7 +304,7 @@ pub fn record(args: &[String]) {
                 let Some(rep) = shard(&v, &ctx, &input, &mut rng, &mut out, None) else { continue };
                 let ps = prefixes_of(&[input.clone()], level, &mut rng, 4);
                 let n = ps.len();
-                let ap = Poplar1AggregationParam::try_from_prefixes(ps).unwrap();
+                let Some(ap) = mk_ap(ps, &mut out) else { continue };
                 let leaf = level == bits - 1;
                 let mut cases: Vec<(Vec<u8>, Vec<Vec<u8>>, Tamper)> = Vec::new();
                 let stride = if thorough { 1 } else { 3 };
@@ -310,7 +321,7 @@ pub fn record(args: &[String]) {
                 let other_level = if leaf { 0 } else { bits - 1 };
                 if other_level != level {
                     let ps2 = prefixes_of(&[input.clone()], other_level, &mut rng, n);
-                    let ap2 = Poplar1AggregationParam::try_from_prefixes(ps2).unwrap();
+                    let Some(ap2) = mk_ap(ps2, &mut out) else { continue };
                     let public = Poplar1PublicShare::get_decoded_with_param(&v, &rep.pubb).unwrap();
                     let sh0 = Poplar1InputShare::<32>::get_decoded_with_param(&(&v, 0), &rep.shares[0]).unwrap();
                     let sh1 = Poplar1InputShare::<32>::get_decoded_with_param(&(&v, 1), &rep.shares[1]).unwrap();
